@@ -220,8 +220,12 @@ impl Database {
             -1,
         );
         self.set_value(&conflict_register_change);
-        // Replicate conflict keys to other replicas
-        replicate_change(&conflict_register_change, &self, &dbs);
+        // Replicate conflict keys to other replicas. A secondary only gets here for a resolve
+        // replicated by the primary, which replicates the conflict key too: sending it back
+        // would make the primary apply and replicate it once more for every secondary.
+        if dbs.is_primary() || dbs.is_eligible() {
+            replicate_change(&conflict_register_change, &self, &dbs);
+        }
         if self.has_pendding_conflict(&change.key) {
             let pendding_conflict = self.list_conflicts_keys(&change.key);
             let values = pendding_conflict
